@@ -581,12 +581,38 @@ def bad_functor_arguments_diagnosed(chk, rid):
     return any(n_ in t_ for n_ in names)
   found = None
   weak = None
-  for n, r in v.raises():
+  views = [v]
+  # the check may live in a helper CallFunctor calls as a statement
+  for n_, c_ in v.all_calls():
+    for t_ in repo.resolve(v.fi, c_):
+      if t_.startswith('functors.Functors.') and t_ != v.fi.fq and \
+          'args_map' in norm(c_, 200):
+        try:
+          h_ = FnView(repo, t_)
+        except AnalysisError:
+          continue
+        if any(True for _ in h_.raises()):
+          views.append(h_)
+  for v, n, r in [(w_, n_, r_) for w_ in views for n_, r_ in w_.raises()]:
     for h, pol in v.cfg.header_of(n):
       st = v.cfg.stmt[h]
       if not isinstance(st, ast.If):
         continue
-      t_ = v.expand(st.test, 4)
+      t_ = v.expand_flow(st.test, 4)
+      # a value computed by a small helper (`self.ForeignArguments(..)`): read
+      # the helper's returned expression in its place
+      for c_ in list(ast.walk(t_)):
+        if isinstance(c_, ast.Call) and mentions(c_, 'args_map'):
+          for tg_ in repo.resolve(v.fi, c_):
+            if tg_.startswith('functors.Functors.') and tg_ != v.fi.fq:
+              try:
+                hh = FnView(repo, tg_)
+              except AnalysisError:
+                continue
+              rets_ = [hh.expand(r2.value, 4) for _, r2 in hh.returns() if r2.value is not None]
+              if len(rets_) == 1:
+                t_ = ast.BoolOp(op=ast.Or(), values=[rets_[0]]) if not isinstance(
+                    t_, ast.UnaryOp) else ast.UnaryOp(op=ast.Not(), operand=rets_[0])
       if not mentions(t_, 'args_map'):
         continue
       ok_ = False
@@ -613,6 +639,7 @@ def bad_functor_arguments_diagnosed(chk, rid):
         weak = st
   if found is None and weak is None:
     raise AnalysisError('CallFunctor: the diagnostic for foreign arguments is not recognised')
+  v = views[0]
   chk.ob(rid, found is not None, None,
          'a functor call is rejected as soon as one named argument is not a dependency of the functor',
          'the FunctorError hangs on `%s`, not on "some argument is not a dependency": a call '
